@@ -69,7 +69,7 @@ def mutations(pdu: bytes, extra: Tuple[int, ...]) -> Iterator[bytes]:
     yield pdu + b"\xff\xff"
     # a byte that may be a length or a key, set to a large value, with enough bytes behind it to satisfy that length
     for i in range(len(pdu)):
-        for b in (0x09, 0x41, 0x48, 0x80, 0xFF):
+        for b in (0x41, 0x48, 0xFF):
             yield pdu[:i] + bytes([b]) + pdu[i + 1:] + b"\x11" * 40
 
 
@@ -282,9 +282,9 @@ def somersault_unit(unit: Tuple[str, int, int]) -> Part:
 
 def run(ctx: Ctx) -> None:
     progs_c = [p for p in space.layer_c_programs(ctx.quick) if len(p["tags"][1].split("+")) <= (2 if ctx.quick else 3) or p.get("kind", "REQUEST") != "REQUEST"]
-    if not ctx.quick:
-        for p in progs_c:
-            p["maxlen"] = 4 if len(p["tags"][1].split("+")) <= 1 else 3
+    for p in progs_c:
+        single = len(p["tags"][1].split("+")) <= 1
+        p["maxlen"] = (3 if single else 2) if ctx.quick else (4 if single else 3)
     chunk = 100
     units = [(f"C/{c // chunk}", progs_c[c:c + chunk]) for c in range(0, len(progs_c), chunk)]
     a_units = space.layer_a_minmax_units(ctx.quick) + space.layer_a_lead_units(ctx.quick) + space.layer_a_plen_units(ctx.quick) + \
@@ -297,7 +297,10 @@ def run(ctx: Ctx) -> None:
     ints = space.layer_a_int_units(True)
     units += ints if not ctx.quick else ints[::4]
     ctx.bounds = {"programs": "layer C depth <= %d, layer A" % (2 if ctx.quick else 3), "mutations": "all strict prefixes, substitutions by %s + program bytes + orig+-1 at every position, one insertion/deletion at every position" % (list(SUBST),),
-                  "all_strings_upto": "3 (4 for single-template programs in thorough) over the program's byte alphabet",
+                  "all_strings_upto": "quick: 3 for single-template programs, 2 otherwise; thorough: 4 and 3; over the program's byte alphabet",
+                  "layer_B": "every 8-bit compu program of the shared space x all 256 one-byte PDUs",
+                  "layer_apis_on_program_layers": "valid PDUs, all their strict prefixes and two mutations through DiagLayer.decode, decode_response (responses) and DiagService.decode_message; responses belong to a service with request 22 <16-bit id>",
+                  "long_tails": "every byte set to 0x41/0x48/0xFF with 40 more bytes behind it (length keys beyond 64 bits)",
                   "somersault": "every layer x all byte strings <= %d over the layer's prefix bytes + {00,01,7F,FF}" % (2 if ctx.quick else 3)}
     ctx.rule = "program x byte string; non-trivial = distinct (construct, outcome class, length)"
     ctx.assumptions = ["warnings of category DecodeError are not exceptions and are ignored", "a decode running longer than 5 s counts as non-termination",
